@@ -78,6 +78,15 @@ type Scenario struct {
 	// executing at the same time. Rdv = min(limit, number of such invocations).
 	Rdv      int   `json:"rdv,omitempty"`
 	RdvUnits []int `json:"rdvunits,omitempty"`
+	// Panic-first scenario (C04, needs the scheduler hook points): unit
+	// PFirst-1 panics at once while every other invocation of a unit listed
+	// in PFirstUnits (the other dependency-free functions) parks until the
+	// Scheduler Loop has received a result after that unit began and has
+	// finished processing it - which can only be the panic. Only then do
+	// they go on (and fail, if their outcome says so): a fail-fast directive
+	// has recorded the panic first and must report it.
+	PFirst      int   `json:"pfirst,omitempty"`
+	PFirstUnits []int `json:"pfirstunits,omitempty"`
 }
 
 // Event is one entry of the execution log.
@@ -202,6 +211,9 @@ type Env struct {
 	rdvCh            chan struct{}
 	rdvArrived       atomic.Int32
 	rdvJudge         atomic.Bool
+	pfBegan          atomic.Bool
+	pfBase           atomic.Int64
+	PFirstUnreleased atomic.Bool // a parked function gave up waiting: no verdict
 	RdvTimedOut      atomic.Bool
 	RdvSeen          atomic.Int32 // arrivals when the process was found stuck
 	GateTimedOut     atomic.Bool
@@ -235,6 +247,15 @@ func NewEnv(id int, spec *Spec, scn *Scenario) *Env {
 		e.Ems = append(e.Ems, &RecEmitter{env: e, idx: i})
 	}
 	return e
+}
+
+func (e *Env) pfMember(unit int) bool {
+	for _, u := range e.Scn.PFirstUnits {
+		if u == unit {
+			return true
+		}
+	}
+	return false
 }
 
 func (e *Env) rdvMember(unit int) bool {
@@ -438,6 +459,21 @@ func (e *Env) begin(unit, elem, idx int, key string, ctx context.Context, ins []
 		runtime.Gosched()
 	case 2:
 		time.Sleep(time.Duration(o.D) * time.Microsecond)
+	}
+	if e.Scn.PFirst > 0 {
+		if unit == e.Scn.PFirst-1 {
+			e.pfBase.Store(HookSeen())
+			e.pfBegan.Store(true)
+		} else if e.pfMember(unit) {
+			deadline := time.Now().Add(5 * time.Second)
+			for !(e.pfBegan.Load() && HookSettled() > e.pfBase.Load()) {
+				if time.Now().After(deadline) {
+					e.PFirstUnreleased.Store(true)
+					break
+				}
+				time.Sleep(50 * time.Microsecond)
+			}
+		}
 	}
 	if e.Scn.Rdv > 0 && e.rdvMember(unit) {
 		if int(e.rdvArrived.Add(1)) >= e.Scn.Rdv {
